@@ -1,0 +1,51 @@
+//go:build verif
+
+package runtime
+
+// Read-only accessors for the verification harness (/verif, property C03).
+// Nothing here is used by the runtime itself.
+
+// VerifSlot is a copy of one hashTableSlot.
+type VerifSlot struct {
+	Key, Value Value
+	Next       uintptr // nextIndex()
+	HasNext    bool
+	Chained    bool
+}
+
+// VerifTableDump is a copy of the complete internal state of a mixedTable.
+type VerifTableDump struct {
+	HasHash    bool // hashTable != nil
+	Base       uint8
+	NextFree   uintptr
+	NoNextFree bool // nextFree == noNextFree
+	Slots      []VerifSlot
+	HasArray   bool // array != nil
+	ArrayLen   uintptr
+	Array      []Value
+}
+
+// VerifDump returns a copy of the table's internal state.
+func (t *Table) VerifDump() (d VerifTableDump) {
+	if h := t.mixedTable.hashTable; h != nil {
+		d.HasHash = true
+		d.Base = h.base
+		d.NextFree = h.nextFree
+		d.NoNextFree = h.nextFree == noNextFree
+		d.Slots = make([]VerifSlot, len(h.slots))
+		for i, s := range h.slots {
+			d.Slots[i] = VerifSlot{Key: s.key, Value: s.value, Next: s.nextIndex(), HasNext: s.hasNext(), Chained: s.isChained()}
+		}
+	}
+	if a := t.mixedTable.array; a != nil {
+		d.HasArray = true
+		d.ArrayLen = a.len
+		d.Array = append([]Value(nil), a.values...)
+	}
+	return
+}
+
+// VerifHash returns the hash the table code uses for v.
+func (v Value) VerifHash() uintptr {
+	return v.Hash()
+}
